@@ -26,6 +26,10 @@ import (
 
 var cliBin string
 
+// hangsSeen counts commands of this child process that did not return: after two of them no further ssh members are
+// generated (every such case costs a minute, and the finding is made)
+var hangsSeen int
+
 func parentSetup(tier string, seed int64, work string) ([]string, error) {
 	p, err := harness.BuildCLI(work, "desync-verif", "verif", false)
 	if err != nil {
@@ -62,7 +66,7 @@ func newCLIMember(rng *rand.Rand, base, name string, ids []desync.ChunkID, data 
 	if writable && (m.kind == "s3" || m.kind == "ssh") {
 		m.kind = "local"
 	}
-	if m.kind == "ssh" && os.Getenv("VERIF_SHIM") == "" {
+	if m.kind == "ssh" && (os.Getenv("VERIF_SHIM") == "" || hangsSeen >= 2) {
 		m.kind = "local"
 	}
 	os.MkdirAll(m.dir, 0755)
@@ -331,6 +335,7 @@ func cliChain(c *harness.Ctx) {
 			// a command that takes a fraction of a second has not returned: what are its goroutines doing (DESIGN 4.2)
 			cmd.Process.Signal(syscall.SIGQUIT)
 			<-done
+			hangsSeen++
 			if harness.DumpIsStuckWaitingForChildren(stderr.String()) {
 				c.Violation("cli-chain-hang", "desync %s over (%s) did not return; every goroutine waits for a channel, a lock or its own idle helper processes:\n%s", cmdName, strings.Join(shape, " ; "), stderr.String())
 			} else {
